@@ -13,7 +13,9 @@
 
    The variant flags select between the two recognised shapes of the source:
      lc_cdfix  = GenSerLegacy.legacy_cdata_cr_referenced         (fixes/C04/10-K-new-7)
-     lc_surfix = GenSerLegacy.legacy_detects_lone_low_surrogate  (fixes/C04/11-K-new-4) *)
+     lc_surfix = GenSerLegacy.legacy_detects_lone_low_surrogate  (fixes/C04/11-K-new-4)
+   and, as a separate argument chk of the comment / PI / name functions,
+     chk       = GenSerLegacy.legacy_checks_comment_pi_names     (fixes/C04/12-K-new-8) *)
 From Coq Require Import NArith List Bool.
 Require Import XV.GenSerLegacy XV.SerUtfDefs.
 Import ListNotations.
@@ -201,6 +203,65 @@ Section Legacy.
     (match data with c :: _ => if lg_is_ws c then [] else [lg_name_put lg_pi_sep] | [] => [] end) ++
     lg_puts data ++ lg_name lg_pi_close.
 
+  (* ---- comments, PIs and names with the variant flag chk --------------------------------------- *)
+  (* isReferenceOnly *)
+  Definition lg_ref_only (c : N) : bool :=
+    (c =? 13) || ((c <? 32) && negb (c =? 9) && negb (c =? 10))
+    || (v11 && ((c =? lg_lsep) || ((127 <=? c) && (c <=? 159)))).
+
+  (* accumMarkupRun: the units between two line feeds *)
+  Fixpoint lg_markup_run (l : list N) : res (list N) :=
+    match l with
+    | [] => Ok []
+    | c :: r =>
+        if lg_sur c then
+          match r with
+          | n :: r' =>
+              if lg_high c && lg_low n then
+                if maxc <? c then Thrown err_unrepresentable
+                else lg_lift (lg_put c ++ lg_put n) (lg_markup_run r')
+              else Thrown err_surrogate
+          | [] => Thrown err_surrogate
+          end
+        else if maxc <? c then Thrown err_unrepresentable
+        else lg_lift (lg_put c) (lg_markup_run r)
+    end.
+
+  (* accumMarkupData: a reference-only character is an error before the pending run is written *)
+  Fixpoint lg_markup_loop (l run_rev : list N) : res (list N) :=
+    match l with
+    | [] => lg_markup_run (rev run_rev)
+    | c :: r =>
+        if c =? 10 then
+          match lg_markup_run (rev run_rev) with
+          | Ok o => lg_lift (o ++ lg_put 10) (lg_markup_loop r [])
+          | e => e
+          end
+        else if lg_ref_only c then Thrown err_forbidden
+        else lg_markup_loop r (c :: run_rev)
+    end.
+
+  Definition lg_markup (chk : bool) (s : list N) : res (list N) :=
+    if chk then lg_markup_loop s [] else Ok (lg_puts s).
+
+  (* accumName(name): accumNameAsChar throws for a unit outside the encoding (output method xml) *)
+  Definition lg_name_r (chk : bool) (s : list N) : res (list N) :=
+    if chk && existsb (fun c => maxc <? c) s then Thrown err_unrepresentable else Ok (lg_name s).
+
+  Definition lg_bind (r : res (list N)) (k : list N -> res (list N)) : res (list N) :=
+    match r with Ok x => k x | Oob => Oob | Thrown c => Thrown c end.
+
+  Definition lg_comment (chk : bool) (s : list N) : res (list N) :=
+    lg_lift (lg_name lg_comment_open)
+      (lg_bind (lg_markup chk s) (fun d => Ok (d ++ lg_name lg_comment_close))).
+
+  Definition lg_pi (chk : bool) (target data : list N) : res (list N) :=
+    lg_lift (lg_name lg_pi_open)
+      (lg_bind (lg_name_r chk target) (fun t =>
+        lg_bind (lg_markup chk data) (fun d =>
+          Ok (t ++ (match data with c :: _ => if lg_is_ws c then [] else [lg_name_put lg_pi_sep] | [] => [] end)
+                ++ d ++ lg_name lg_pi_close)))).
+
   (* ---- events ------------------------------------------------------------------------------- *)
   Inductive lg_event : Type :=
   | LStart (name : list N) (attrs : list (list N * list N))
@@ -217,25 +278,27 @@ Section Legacy.
     | _ => ([], st)
     end.
 
-  Fixpoint lg_attrs (l : list (list N * list N)) : res (list N) :=
+  Fixpoint lg_attrs (chk : bool) (l : list (list N * list N)) : res (list N) :=
     match l with
     | [] => Ok []
     | (an, av) :: r =>
-        match lg_write_attr av with
-        | Ok v => lg_lift (lg_put 32 ++ lg_name an ++ lg_put 61 ++ lg_put 34 ++ v ++ lg_put 34) (lg_attrs r)
-        | e => e
-        end
+        lg_bind (lg_name_r chk an) (fun n =>
+          match lg_write_attr av with
+          | Ok v => lg_lift (lg_put 32 ++ n ++ lg_put 61 ++ lg_put 34 ++ v ++ lg_put 34) (lg_attrs chk r)
+          | e => e
+          end)
     end.
 
-  Definition lg_event_out (e : lg_event) (st : list bool) : res (list N) * list bool :=
+  Definition lg_event_out (chk : bool) (e : lg_event) (st : list bool) : res (list N) * list bool :=
     match e with
     | LStart name attrs =>
         let '(p, st1) := lg_parent_tag_end st in
-        (lg_lift (p ++ [lg_name_put 60] ++ lg_name name) (lg_attrs attrs), false :: st1)
+        (lg_bind (lg_name_r chk name) (fun n => lg_lift (p ++ [lg_name_put 60] ++ n) (lg_attrs chk attrs)),
+         false :: st1)
     | LEnd name =>
         let '(had, st1) := match st with [] => (false, []) | b :: r => (b, r) end in
-        (Ok ((if had then [lg_name_put 60; lg_name_put 47] ++ lg_name name else [lg_name_put 47])
-             ++ [lg_name_put 62]), st1)
+        ((if had then lg_bind (lg_name_r chk name) (fun n => Ok ([lg_name_put 60; lg_name_put 47] ++ n ++ [lg_name_put 62]))
+          else Ok [lg_name_put 47; lg_name_put 62]), st1)
     | LText s =>
         match s with
         | [] => (Ok [], st)
@@ -244,16 +307,16 @@ Section Legacy.
     | LCdata s =>
         (* the harness calls cdata() directly, also with length 0 *)
         let '(p, st1) := lg_parent_tag_end st in (lg_lift p (lg_write_cdata s), st1)
-    | LComment s => let '(p, st1) := lg_parent_tag_end st in (Ok (p ++ lg_write_comment s), st1)
-    | LPI t d => let '(p, st1) := lg_parent_tag_end st in (Ok (p ++ lg_write_pi t d), st1)
+    | LComment s => let '(p, st1) := lg_parent_tag_end st in (lg_lift p (lg_comment chk s), st1)
+    | LPI t d => let '(p, st1) := lg_parent_tag_end st in (lg_lift p (lg_pi chk t d), st1)
     end.
 
-  Fixpoint lg_events (es : list lg_event) (st : list bool) : res (list N) :=
+  Fixpoint lg_events (chk : bool) (es : list lg_event) (st : list bool) : res (list N) :=
     match es with
     | [] => Ok []
     | e :: r =>
-        match lg_event_out e st with
-        | (Ok o, st1) => lg_lift o (lg_events r st1)
+        match lg_event_out chk e st with
+        | (Ok o, st1) => lg_lift o (lg_events chk r st1)
         | (x, _) => x
         end
     end.
@@ -264,10 +327,11 @@ Section Legacy.
     lg_name [34; 32; 101; 110; 99; 111; 100; 105; 110; 103; 61; 34] ++ lg_name encoding ++
     lg_name [34; 63; 62].
 
-  Definition lg_document (version encoding : list N) (es : list lg_event) : res (list N) :=
-    lg_lift (lg_header version encoding) (lg_events es []).
+  Definition lg_document (chk : bool) (version encoding : list N) (es : list lg_event) : res (list N) :=
+    lg_lift (lg_header version encoding) (lg_events chk es []).
 End Legacy.
 
 (* the configuration of this source tree *)
 Definition lg_this_tree (maxc : N) (v11 : bool) : lcfg :=
   mklcfg maxc v11 legacy_cdata_cr_referenced legacy_detects_lone_low_surrogate.
+Definition lg_chk_this_tree : bool := legacy_checks_comment_pi_names.
